@@ -316,7 +316,7 @@ func runCheck(cfg *runConfig) int {
 	if cfg.fnFilter != "" {
 		fns = []string{cfg.fnFilter}
 	}
-	timeout := 20
+	timeout := 30
 	if cfg.tier == "thorough" {
 		timeout = 60
 	}
